@@ -11,6 +11,7 @@ import (
 	"runtime"
 	"sort"
 	"strings"
+	"time"
 
 	"github.com/folbricht/desync"
 )
@@ -348,10 +349,22 @@ func runC18(cfg Config) {
 		nn := 1 + rng.Intn(6)
 		depth := 0
 		names := 0
+		noname := it%4 == 1 // archives in which some entries come without a filename element
+		benign := it%4 == 2 // only well-formed names: deeper runs, directories re-used after being left
+		if benign || noname {
+			nn = 3 + rng.Intn(10)
+		}
 		for k := 0; k < nn; k++ {
 			name := hostileNames[rng.Intn(len(hostileNames))]
-			if rng.Intn(3) == 0 {
+			if rng.Intn(3) == 0 || benign {
 				name = fmt.Sprintf("n%d", rng.Intn(4))
+			}
+			if (benign || noname) && rng.Intn(4) != 0 {
+				name = fmt.Sprintf("n%d", rng.Intn(2))
+			}
+			fname := fname
+			if noname && rng.Intn(3) == 0 {
+				fname = func(string) []byte { return nil }
 			}
 			switch rng.Intn(7) {
 			case 0, 1:
@@ -362,7 +375,11 @@ func runC18(cfg Config) {
 			case 2:
 				b = append(b, fname(name)...)
 				b = append(b, entry(0o120777)...)
-				tgt := []string{"/", "..", "../outside", "/tmp", "sibling", "../sentinel", "../outside/file", "../outside/created", "../created"}[rng.Intn(9)]
+				tgt := []string{"/", "..", "../outside", "/tmp", "sibling", "../sentinel", "../outside/file", "../outside/created", "../created",
+					filepath.Join(sandbox, "outside"), filepath.Join(sandbox, "outside"), "../../outside"}[rng.Intn(12)]
+				if (benign || noname) && rng.Intn(3) != 0 {
+					tgt = []string{filepath.Join(sandbox, "outside"), "../outside", "../../outside"}[rng.Intn(3)]
+				}
 				b = append(b, symlink(tgt)...)
 				names++
 				if rng.Intn(2) == 0 { // the same name again, as a regular file
@@ -383,6 +400,44 @@ func runC18(cfg Config) {
 				b = append(b, goodbye()...)
 				b = append(b, goodbye()...)
 			}
+		}
+		outs := []string{filepath.Join(sandbox, "outside"), "../outside", "../../outside"}
+		if noname && it%8 == 1 {
+			// directed: a directory is entered, then replaced through entries without a filename (a file,
+			// then a symlink pointing outside), then a named entry follows
+			d := fmt.Sprintf("n%d", rng.Intn(2))
+			b = append(b, fname(d)...)
+			b = append(b, entry(0o040755)...)
+			b = append(b, fname("f")...)
+			b = append(b, entry(0o100644)...)
+			b = append(b, payload([]byte("y"))...)
+			b = append(b, entry(0o100644)...)
+			b = append(b, payload([]byte("x"))...)
+			b = append(b, entry(0o120777)...)
+			b = append(b, symlink(outs[rng.Intn(3)])...)
+			b = append(b, fname("created")...)
+			b = append(b, entry(0o100644)...)
+			b = append(b, payload([]byte("through the replaced directory?"))...)
+			depth++
+		}
+		if benign && it%8 == 2 {
+			// directed: a directory is written and left, then its name is re-used for a file and for a
+			// symlink pointing outside (the directory's recorded mtime must not follow the link)
+			d := fmt.Sprintf("n%d", rng.Intn(2))
+			b = append(b, fname(d)...)
+			b = append(b, entry(0o040755)...)
+			if rng.Intn(2) == 0 {
+				b = append(b, fname("n0")...)
+				b = append(b, entry(0o040755)...)
+				b = append(b, goodbye()...)
+			}
+			b = append(b, goodbye()...)
+			b = append(b, fname(d)...)
+			b = append(b, entry(0o100644)...)
+			b = append(b, payload([]byte("x"))...)
+			b = append(b, fname(d)...)
+			b = append(b, entry(0o120777)...)
+			b = append(b, symlink(outs[rng.Intn(3)])...)
 		}
 		for ; depth >= 0; depth-- {
 			b = append(b, goodbye()...)
@@ -409,13 +464,18 @@ func runC18(cfg Config) {
 			}
 		}
 		// monitor 2 (on disk): unpack into sandbox/dst; sandbox/sentinel and sandbox/outside must be untouched
-		if it%3 == 0 {
+		if it%3 == 0 || noname || benign {
 			os.RemoveAll(sandbox)
 			dst := filepath.Join(sandbox, "dst")
 			os.MkdirAll(dst, 0755)
 			os.WriteFile(filepath.Join(sandbox, "sentinel"), []byte("keep"), 0644)
 			os.MkdirAll(filepath.Join(sandbox, "outside"), 0755)
 			os.WriteFile(filepath.Join(sandbox, "outside", "file"), []byte("keep"), 0644)
+			os.MkdirAll(filepath.Join(sandbox, "outside", "n0"), 0755)
+			long := time.Unix(1000000000, 0)
+			for _, o := range []string{"outside/n0", "outside/file", "outside", "sentinel"} {
+				os.Chtimes(filepath.Join(sandbox, o), long, long)
+			}
 			if rng.Intn(2) == 0 { // pre-existing symlinks inside dst pointing outside
 				os.Symlink(filepath.Join(sandbox, "outside"), filepath.Join(dst, "link"))
 				os.Symlink("..", filepath.Join(dst, "n1"))
@@ -443,12 +503,18 @@ func snapshotOutside(sandbox string) string {
 		}
 		rel, _ := filepath.Rel(sandbox, p)
 		if rel == "dst" {
-			return filepath.SkipDir
+			if info.IsDir() {
+				return filepath.SkipDir
+			}
+			return nil // the destination itself was replaced by a non-directory (an archive whose root is a file)
 		}
 		s := rel + ":" + info.Mode().String()
 		if info.Mode().IsRegular() {
 			b, _ := os.ReadFile(p)
 			s += ":" + string(b) + ":" + info.ModTime().UTC().Format("2006-01-02T15:04:05")
+		} else if info.IsDir() && rel != "." {
+			// a directory's mtime changes when something is created or removed in it, or when it is set
+			s += ":" + info.ModTime().UTC().Format("2006-01-02T15:04:05")
 		}
 		out = append(out, s)
 		return nil
